@@ -267,9 +267,69 @@ def gen_tables() -> str:
     w(f"def xpathFunctions : List (String × Nat × Bool) := [{', '.join(funcs)}]")
     w("/-- `sys.get_int_max_str_digits()`: longer digit strings make `int()` raise ValueError (0 = no limit) -/")
     w(f"def intMaxStrDigits : Nat := {sys.get_int_max_str_digits()}")
+    # --- garbage collection callback ---------------------------------------
+    g = gc_thresholds()
+    lst = lambda xs: "[" + ", ".join(str(x) for x in xs) + "]"  # noqa: E731
+    w("/-- `_WrapperCache.__gc_callback__`: the integer literals of its `getrefcount` comparisons, in source order -/")
+    w(f"def gcWrapperBases : List Nat := {lst(g['wrapper'])}")
+    w(f"def gcDocumentIdles : List Nat := {lst(g['document'])}")
+    w(f"def gcAppendedBases : List Nat := {lst(g['appended'])}")
+    w(f"def gcHeadBases : List Nat := {lst(g['head'])}")
+    w(f"def gcOtherComparisons : List String := [{', '.join(lean_str(x) for x in g['other'])}]")
+    w(f"def gcGuard : String := {lean_str(g['guard'])}")
+    w("def gcWrapperBase : Nat := gcWrapperBases.headD 0")
+    w("def gcDocumentIdle : Nat := gcDocumentIdles.headD 0")
+    w("def gcAppendedBase : Nat := gcAppendedBases.foldl min (gcAppendedBases.headD 0)")
+    w("def gcHeadBase : Nat := gcHeadBases.foldl min (gcHeadBases.headD 0)")
     w("")
     w("end Delb.Gen")
     return "\n".join(L) + "\n"
+
+
+def gc_thresholds():
+    """The comparisons of `_WrapperCache.__gc_callback__`, read from the source text (ast): every
+    `getrefcount(X) > <expr>` / `getrefcount(X) == <int>`; the integer literal of <expr> is the structural base."""
+    import ast as pyast
+
+    src = (REPO / "_delb" / "nodes.py").read_text()
+    tree = pyast.parse(src)
+    fn = None
+    for cls in pyast.walk(tree):
+        if isinstance(cls, pyast.ClassDef) and cls.name == "_WrapperCache":
+            for f in cls.body:
+                if isinstance(f, pyast.FunctionDef) and f.name == "__gc_callback__":
+                    fn = f
+    out = {"wrapper": [], "document": [], "appended": [], "head": [], "guard": "", "other": []}
+    if fn is None:
+        return out
+
+    def const_of(e):
+        ints = [n.value for n in pyast.walk(e) if isinstance(n, pyast.Constant) and isinstance(n.value, int) and not isinstance(n.value, bool)]
+        return ints
+
+    def arg_name(call):
+        a = call.args[0]
+        return pyast.unparse(a)
+
+    for n in pyast.walk(fn):
+        if isinstance(n, pyast.Compare) and isinstance(n.left, pyast.Call) and getattr(n.left.func, "id", "") == "getrefcount":
+            who = arg_name(n.left)
+            op = type(n.ops[0]).__name__
+            rhs = n.comparators[0]
+            if who == "node" and op == "Gt":
+                # 4 + isinstance(...) + (… and getrefcount(node.__document__) == 4): own literal = the first
+                out["wrapper"].append(const_of(rhs)[0] if const_of(rhs) else 0)
+            elif who == "node.__document__" and op == "Eq":
+                out["document"].append(const_of(rhs)[0] if const_of(rhs) else 0)
+            elif who == "current" and op == "Gt":
+                out["appended"].append(const_of(rhs)[0] if const_of(rhs) else 0)
+            elif who in ("tail_node", "data_node") and op == "Gt":
+                out["head"].append(const_of(rhs)[0] if const_of(rhs) else 0)
+            else:
+                out["other"].append(f"{who} {op}")
+    first = fn.body[1] if isinstance(fn.body[0], pyast.Expr) else fn.body[0]
+    out["guard"] = pyast.unparse(first.test) if isinstance(first, pyast.If) else ""
+    return out
 
 
 def main():
